@@ -44,11 +44,21 @@ type Case struct {
 	Burst int `json:"burst"`
 	// Epilogue: "close" | "reset-reconnect"
 	Epilogue string `json:"epilogue"`
+	// Waiters: application goroutines that are already inside AwaitConverged when the fault
+	// happens (they were started while requests were outstanding)
+	Waiters int `json:"waiters,omitempty"`
+	// Concurrent (receive side): the burst is queued by another goroutine and the stream
+	// breaks while it is in progress (parked on the full buffer, or done), instead of after
+	Concurrent bool `json:"concurrent,omitempty"`
+	// Rep > 0: the scenario is run up to Rep times on fresh clients, stopping at the first
+	// finding (interleavings of the application's goroutines with the client's are the Go
+	// scheduler's: a lock-order problem shows only in some runs)
+	Rep int `json:"rep,omitempty"`
 }
 
 func setup() {
 	c := ev.C()
-	c.Rule = "a scripted exchange (handshake + NReq requests answered in order) with one stream fault: injected at every message index on the send side (the At-th Send fails; or stalls under flow control and then fails) and on the receive side (after At responses), for each status class {EOF, Unavailable, Internal, Canceled}, while the application queues a burst of 0..12 further requests, followed by Close, or by Reset + ReplaceStub + Connect + a further exchange. The full product over small parameters is enumerated (quick: NReq<=3, burst in {0,1,6,12}; thorough: NReq<=6, burst 0..12) plus rapid-drawn cases. Oracle: Done() fires; every Q call returns; the error is recorded in Status(); AwaitConverged returns a *ClientErr (never nil, never only the context error) within the watchdog; Close/Reset return; no goroutine with gribigo/client frames is left (goroutine dump census); after Reset+Connect the client has no pending operations, results or errors, the new stream carries exactly the messages of a fresh client (parameters, election id, the new request) and a new exchange converges. A clean EOF on the receive side is not an error: then only termination, Q, Close/Reset and the census are asserted, and AwaitConverged must not report convergence while operations are unanswered. Non-trivial = burst >= 1 at the time of the fault, or fault index > 0; distinct by FNV-64 of the case JSON."
+	c.Rule = "a scripted exchange (handshake + NReq requests answered in order) with one stream fault: injected at every message index on the send side (the At-th Send fails; or stalls under flow control and then fails) and on the receive side (after At responses), for each status class {EOF, Unavailable, Internal, Canceled}, while the application queues a burst of 0..12 further requests (after the fault, or from another goroutine so that the stream breaks while the burst is in progress), with 0-2 application goroutines already inside AwaitConverged when the fault happens, followed by Close, or by Reset + ReplaceStub + Connect + a further exchange. The full product over small parameters is enumerated (quick: NReq<=3, burst in {0,1,6,12}; thorough: NReq<=6, burst 0..12) plus rapid-drawn cases. Oracle: Done() fires; every Q call returns; the error is recorded in Status(); AwaitConverged returns a *ClientErr (never nil, never only the context error) within the watchdog, and so does every call that was already waiting; Close/Reset return; no goroutine with gribigo/client frames is left (goroutine dump census); after Reset+Connect the client has no pending operations, results or errors, the new stream carries exactly the messages of a fresh client (parameters, election id, the new request) and a new exchange converges. A clean EOF on the receive side is not an error: then only termination, Q, Close/Reset and the census are asserted, and AwaitConverged must not report convergence while operations are unanswered. Non-trivial = burst >= 1 at the time of the fault, or fault index > 0; distinct by FNV-64 of the case JSON."
 	c.Assumptions = []string{"the stub obeys the gRPC client-stream contract: a failed Send returns io.EOF and the status is delivered by Recv; after CloseSend the server ends the stream with io.EOF"}
 }
 
@@ -132,6 +142,19 @@ func respond(st *cstub.Stream, id uint64, fib bool) int {
 }
 
 func runCase(c Case) *ev.Verdict {
+	if c.Rep > 0 {
+		one := c
+		one.Rep = 0
+		var v *ev.Verdict
+		for i := 0; i < c.Rep; i++ {
+			v = runCase(one)
+			if len(v.Findings) > 0 || v.Inconclusive != "" {
+				break
+			}
+		}
+		v.Class("repeated-scenario")
+		return v
+	}
 	v := &ev.Verdict{}
 	fail := func(sig, f string, a ...any) { v.Fail("C14/"+sig, f, a...) }
 	ignore := map[int64]bool{}
@@ -194,6 +217,39 @@ func runCase(c Case) *ev.Verdict {
 		return true
 	}
 	burstDone := make(chan bool, 1)
+	burstAsync := false
+	// early waiters: AwaitConverged callers that are already waiting when the stream breaks
+	waitersDone := make(chan error, 8)
+	waitersStarted := 0
+	wctx, wcancel := context.WithCancel(context.Background())
+	defer wcancel()
+	startWaiters := func() {
+		for ; waitersStarted < c.Waiters; waitersStarted++ {
+			started := make(chan struct{})
+			go func() {
+				close(started)
+				waitersDone <- cl.AwaitConverged(wctx)
+			}()
+			<-started
+		}
+		if c.Waiters == 0 {
+			return
+		}
+		// let them get into AwaitConverged (parked on its lock, polling, or already returned):
+		// a bounded number of looks at the goroutine dump, no verdict depends on it
+		for look := 0; look < 200; look++ {
+			n := 0
+			for _, g := range drive.Parse(drive.Dump()) {
+				if g.Has("client.(*Client).AwaitConverged") {
+					n++
+				}
+			}
+			if n+len(waitersDone) >= waitersStarted {
+				break
+			}
+			runtime.Gosched()
+		}
+	}
 	for m := 1; m <= total && !faulted; m++ {
 		if m > 2 {
 			if !q() {
@@ -210,6 +266,7 @@ func runCase(c Case) *ev.Verdict {
 					return v
 				}
 				faulted = true
+				startWaiters()
 				if !burst() {
 					return v
 				}
@@ -223,10 +280,12 @@ func runCase(c Case) *ev.Verdict {
 				}
 				// the sender is stalled by flow control: the application queues its burst
 				// (legitimately blocking once the buffer is full), then the stream breaks
+				burstAsync = true
 				go func() { burstDone <- burst() }()
 				// give the burst the chance to fill the buffer: wait until the
 				// application goroutine is parked or done
 				waitParkedOrDone(burstDone)
+				startWaiters()
 				fault()
 				continue
 			}
@@ -236,6 +295,16 @@ func runCase(c Case) *ev.Verdict {
 			return v
 		}
 		if c.Side == "recv" && responses == c.At {
+			if c.Concurrent {
+				// the waiters are there first, so that they contend with the queueing calls
+				startWaiters()
+				burstAsync = true
+				go func() { burstDone <- burst() }()
+				waitParkedOrDone(burstDone)
+				fault()
+				break
+			}
+			startWaiters()
 			fault()
 			if !burst() {
 				return v
@@ -259,6 +328,7 @@ func runCase(c Case) *ev.Verdict {
 				fail("receiver-stuck", "the receiver did not process %d responses", responses)
 				return v
 			}
+			startWaiters()
 			fault()
 			if !burst() {
 				return v
@@ -268,7 +338,7 @@ func runCase(c Case) *ev.Verdict {
 			v.Class("no-fault")
 		}
 	}
-	if c.Side == "send-stalled" && faulted {
+	if burstAsync && faulted {
 		select {
 		case ok := <-burstDone:
 			if !ok {
@@ -276,12 +346,31 @@ func runCase(c Case) *ev.Verdict {
 			}
 		case <-time.After(cstub.Watchdog):
 			d := drive.Dump()
-			fail("q-blocks", "Q calls of the burst (%d requests, stalled Send #%d then %s) never returned after the stream failed\n%s", c.Burst, c.At, c.Class, trim(d))
+			fail("q-blocks", "Q calls of the burst (%d requests queued by another goroutine while the stream broke: %s #%d, %s; %d AwaitConverged callers waiting) never returned after the stream failed\n%s", c.Burst, c.Side, c.At, c.Class, c.Waiters, trim(d))
 			// the application goroutine is leaked; unblock nothing further
 			return v
 		}
 	}
 	cleanEOF := c.Side == "recv" && c.Class == "EOF"
+	if faulted && waitersStarted > 0 {
+		v.Class("await-already-waiting-at-the-fault")
+		if cleanEOF {
+			// nothing failed: the callers legitimately wait until their context ends - now
+			wcancel()
+		}
+		for i := 0; i < waitersStarted; i++ {
+			select {
+			case werr := <-waitersDone:
+				var ce *client.ClientErr
+				if werr != nil && !errors.As(werr, &ce) && !cleanEOF {
+					fail("await-no-client-error", "an AwaitConverged call that was waiting when the stream failed (%s/%s at %d, burst %d) returned %v instead of the recorded errors", c.Side, c.Class, c.At, c.Burst, werr)
+				}
+			case <-time.After(2 * cstub.Watchdog):
+				fail("await-blocks", "an AwaitConverged call that was already waiting when the stream failed (%s/%s at %d, burst %d, concurrent burst %v) did not return\n%s", c.Side, c.Class, c.At, c.Burst, c.Concurrent, trim(drive.Dump()))
+				return v
+			}
+		}
+	}
 	if faulted {
 		// Done is signalled
 		select {
@@ -505,6 +594,11 @@ func TestCampaign(t *testing.T) {
 										continue
 									}
 									c := Case{FIB: fib, NReq: nreq, Side: side, At: at, Class: class, Burst: b, Epilogue: epi}
+									// every third case has AwaitConverged callers already waiting at the fault
+									if idx%3 == 0 {
+										c.Waiters = 1 + idx%2
+									}
+									c.Concurrent = side == "recv" && idx%2 == 0
 									v := runCase(c)
 									cnt++
 									if fresh := col.Record(ev.JSON(c), v); len(fresh) > 0 {
@@ -522,6 +616,25 @@ func TestCampaign(t *testing.T) {
 		}
 		col.Scope(fmt.Sprintf("product NReq<=%d x side x every fault index x class x burst %v x epilogue", maxReq, bursts), cnt, true)
 	})
+	t.Run("contention", func(t *testing.T) {
+		// several AwaitConverged callers poll while another goroutine queues a long burst and the
+		// stream then breaks: repeated, because the order in which the application's goroutines
+		// and the client's sender/receiver take the client's locks is the scheduler's
+		rapid.Check(t, func(rt *rapid.T) {
+			if rapid.IntRange(0, 3).Draw(rt, "run?") != 0 {
+				return
+			}
+			c := Case{FIB: rapid.Bool().Draw(rt, "fib"), NReq: rapid.IntRange(0, 3).Draw(rt, "nreq"), Side: "recv", Concurrent: true}
+			c.At = rapid.IntRange(2, 2+c.NReq).Draw(rt, "at")
+			c.Class = classes[rapid.IntRange(1, 3).Draw(rt, "class")]
+			c.Burst = rapid.IntRange(7, 12).Draw(rt, "burst")
+			c.Waiters = rapid.IntRange(2, 4).Draw(rt, "waiters")
+			c.Epilogue = "close"
+			c.Rep = ev.Pick("C14_CONTENTION_REP", 25, 100)
+			v := runCase(c)
+			col.Check(rt, ev.JSON(c), v)
+		})
+	})
 	t.Run("random", func(t *testing.T) {
 		rapid.Check(t, func(rt *rapid.T) {
 			c := Case{FIB: rapid.Bool().Draw(rt, "fib"), NReq: rapid.IntRange(0, 10).Draw(rt, "nreq")}
@@ -533,6 +646,8 @@ func TestCampaign(t *testing.T) {
 			c.Class = classes[rapid.IntRange(0, 3).Draw(rt, "class")]
 			c.Burst = rapid.IntRange(0, 12).Draw(rt, "burst")
 			c.Epilogue = []string{"close", "reset-reconnect"}[rapid.IntRange(0, 1).Draw(rt, "epilogue")]
+			c.Waiters = rapid.IntRange(0, 2).Draw(rt, "waiters")
+			c.Concurrent = c.Side == "recv" && rapid.Bool().Draw(rt, "concurrent")
 			v := runCase(c)
 			col.Check(rt, ev.JSON(c), v)
 		})
